@@ -20,9 +20,42 @@ Inductive diag :=
 | DSeen (excerpt_entry loc_posting label_posting mark_posting : nat)
         (title_computed title_diff label_computed : amount).
 
-Record case := { c_entries : list entry; c_obs : lobs; c_diag : diag }.
-Definition C (es : list entry) (o : lobs) : case := {| c_entries := es; c_obs := o; c_diag := DNone |}.
-Definition CD (es : list entry) (o : lobs) (d : diag) : case := {| c_entries := es; c_obs := o; c_diag := d |}.
+(* One run of `okane balance|register FILE OPTIONS` (harness/src/c02.rs run_variants): exit 0;
+   or a failed balance assertion whose `--> line:col` is the `= X` of that posting of that
+   entry (99: no such place), with the computed balance and difference of the title; or
+   another book-keeping error (title kind, Run/LedgerCase.v title_code) located in that entry;
+   or a failure without a book-keeping error in the chain (the query); or a panic.
+   The flag says whether a conversion (-X) was asked for. *)
+Inductive vres :=
+| VOk | VAssert (entry posting : nat) (computed diff : amount) | VOther (title : N) (entry : nat)
+| VQuery | VPanic.
+
+Record case := { c_entries : list entry; c_obs : lobs; c_diag : diag; c_cmds : list (bool * vres) }.
+Definition C (es : list entry) (o : lobs) : case := {| c_entries := es; c_obs := o; c_diag := DNone; c_cmds := [] |}.
+Definition CD (es : list entry) (o : lobs) (d : diag) : case := {| c_entries := es; c_obs := o; c_diag := d; c_cmds := [] |}.
+Definition CDV (es : list entry) (o : lobs) (d : diag) (vs : list (bool * vres)) : case :=
+  {| c_entries := es; c_obs := o; c_diag := d; c_cmds := vs |}.
+
+(* what every command run must do, whatever its options, given the model's run of the ledger:
+   0 as required; 2 a ledger with a false assertion accepted, or the error names another
+   posting / balance; 1 any other difference *)
+Definition cmd_verdict (m : outcome bstate * nat) (v : bool * vres) : N :=
+  match m, v with
+  | (Ok _, _), (_, VOk) => 0
+  | (Ok _, _), (true, VQuery) => 0
+  | (Ok _, _), (_, VAssert _ _ _ _) => 2
+  | (Ok _, _), _ => 1
+  | (Err (BalanceAssertionFailure p computed diff), k), (_, VAssert k' p' c' d') =>
+      if Nat.eqb k k' && Nat.eqb p p' && amount_eqb computed c' && amount_eqb diff d' then 0 else 2
+  | (Err (BalanceAssertionFailure _ _ _), _), _ => 2
+  | (Err e, k), (_, VOther t k') => if (t =? title_code e)%N && Nat.eqb k k' then 0 else 1
+  | (Err _, _), (_, VAssert _ _ _ _) => 2
+  | (Err _, _), _ => 1
+  | (Panic, _), _ => 0
+  end%N.
+
+Definition cmds_verdict (m : outcome bstate * nat) (vs : list (bool * vres)) : N :=
+  fold_left (fun acc v => N.max acc (cmd_verdict m v)) vs 0%N.
 
 (* the rendered error points at posting p of entry k and reports that balance *)
 Definition diag_points (d : diag) (k p : nat) (computed diff : amount) : bool :=
@@ -89,7 +122,7 @@ Definition model_assertion (e : bk_err) : bool :=
 Definition obs_assertion (x : xerr) : bool :=
   match x with XAssertion _ _ _ => true | _ => false end.
 
-Definition classify (c : case) : N :=
+Definition classify_plain (c : case) : N :=
   let m := process (c_entries c) in
   let agree := obs_agrees (c_obs c) m in
   match c_obs c with
@@ -121,5 +154,15 @@ Definition classify (c : case) : N :=
            | _ => 1%N
            end
   end.
+
+(* the plain run first; where it is as required (or the known class), every command run *)
+Definition classify (c : case) : N :=
+  let base := classify_plain c in
+  if (base =? 0)%N || (base =? 100)%N then
+    match cmds_verdict (process (c_entries c)) (c_cmds c) with
+    | 0%N => base
+    | v => v
+    end
+  else base.
 
 Definition verdicts (cs : list case) : list N := map classify cs.
